@@ -369,14 +369,12 @@ func (r *transport) handleCacheHit(
 	if swr, swrValid := ccResp.StaleWhileRevalidate(); freshness.IsStale && swrValid && !reqWantsValidation {
 		staleFor := age - freshness.UsefulLife
 		if staleFor >= 0 && staleFor < swr {
-			resp, err := r.handleStaleWhileRevalidate(req, stored, urlKey, freshness, ccReq)
-			if err == nil && isRespNoCacheQualified {
+			var strip iter.Seq[string]
+			if isRespNoCacheQualified {
 				// Qualified no-cache: fields must not be served without validation
-				for field := range respNoCacheFieldsSeq {
-					resp.Header.Del(field)
-				}
+				strip = respNoCacheFieldsSeq
 			}
-			return resp, err
+			return r.handleStaleWhileRevalidate(req, stored, urlKey, freshness, ccReq, strip)
 		}
 	}
 
@@ -429,9 +427,17 @@ func (r *transport) handleStaleWhileRevalidate(
 	urlKey string,
 	freshness *internal.Freshness,
 	ccReq internal.CCRequestDirectives,
+	strip iter.Seq[string],
 ) (*http.Response, error) {
 	req2 := req.Clone(req.Context())
 	req2 = withConditionalHeaders(req2, stored.Data.Header)
+	if strip != nil {
+		// After the validators were copied and before the cache adds its own
+		// fields (Age and the status fields are not the origin's to withhold).
+		for field := range strip {
+			stored.Data.Header.Del(field)
+		}
+	}
 	// Background revalidation is "best effort"; it is not guaranteed to complete
 	// if the program exits before the goroutine finishes. This design choice was
 	// made to keep the API simple and avoid requiring explicit shutdown coordination.
